@@ -249,6 +249,10 @@ func checkC08(a *checkArgs, r *Result) error {
 	if a.tier == "thorough" {
 		big = 6
 	}
+	// > 1 MiB in a single chunk (size field bits 16..20): needs better than 16:1 compression
+	rep := bytes.Repeat([]byte("all work and no play makes jack a dull boy. "), 60000)
+	cases = append(cases, w2Case{Op: "writer2-history", Name: fmt.Sprintf("big/repetitive w%d C", len(rep)), LC: 3, PB: 2, DictCap: 1 << 20, BufSize: 4096,
+		Hist: []w2Op{{"write", hxe(rep)}, {"flush", ""}, {"write", hxe(rep[:1500000])}, {"close", ""}}})
 	for i := 0; i < big; i++ {
 		d := genLowEntropy(rng, 2200000+rng.Intn(200000))
 		cases = append(cases, w2Case{Op: "writer2-history", Name: fmt.Sprintf("big/w%d F w100 C", len(d)), LC: 3, PB: 2, DictCap: 1 << 20, BufSize: 4096,
